@@ -26,10 +26,19 @@
 // only=<run> executes just the run with that index (same derived seed as in a full invocation);
 // verbose adds `c04 detail ...` lines for the calls that caused violations.
 //
+// Tokens of a run line: mode (plain, yield, killcli, proxykill, proxycut, srvstop, cliclose, evil),
+// yield=<permille>/<sleep>, mc/cch (ClientMaxConns/ClientConnChannels), comp, win (channel window,
+// 0 = default), auto (auto-connect), cl (rpc clients sharing the server), g/n (goroutines/calls),
+// kinds (u unary, o oneway, w oneway through Channel, c/s/b client/server/bidirectional stream),
+// conns (connections the handler saw), inj (faults injected), inv (handler invocations), ok/app/
+// transport/noresp (what the callers observed: OK, an application status, any other status, no
+// response by design), srvFalseEnd (handlers whose Receive returned End although the caller never
+// sent an end: the channel was freed or lost; informational), panicMsgLost, yields, ms.
+//
 // Environment: RPCSCEN_SABOTAGE=<what> falsifies the expectations inside the harness (self test
 // of the oracle; the runs must then report violations): result, status, stream, count, oneway,
-// evil. RPCSCEN_STRICT_END=1 turns the informational token srvFalseEnd (the server handler read an
-// End status although the client never sent an end) into a violation.
+// evil, cross, dup. RPCSCEN_STRICT_END=1 turns the informational token srvFalseEnd into a
+// violation.
 package main
 
 import (
